@@ -106,6 +106,7 @@ type gscript struct {
 	updates     int
 	sig         string
 	endVerdict  string // "" or the verdict an extra last line forces ("fail", "skip") after the updates were recorded
+	alt         map[int]string // entry index -> content that is acceptable there as well (see gen: shadowed duplicates)
 	setupCd     bool   // Params.Setup moves the script's starting directory to $WORK/startdir (as cmd/go's tests do)
 }
 
@@ -283,15 +284,36 @@ func gen(r *rand.Rand, idx int) *gscript {
 	order := append([]golden{}, golds...)
 	pos := r.Intn(len(order) + 1)
 	order = append(order[:pos:pos], append([]golden{extra}, order[pos:]...)...)
+	// The same entry name twice (allowed unless RequireUniqueNames is set, which the runs of every third
+	// script are - those get none): the later entry is the one that is unpacked last and therefore the
+	// golden the script compares with. It must hold the actual content afterwards; the shadowed earlier
+	// one may keep its content or follow (the statement does not say).
+	shadow := -1
+	if idx%3 == 0 && r.Intn(3) == 0 {
+		k := r.Intn(len(order))
+		if order[k].name != extra.name {
+			sh := golden{order[k].name, "shadowed earlier entry of the same name\n", order[k].arname}
+			at := r.Intn(k + 1)
+			order = append(order[:at:at], append([]golden{sh}, order[at:]...)...)
+			shadow = at
+			kinds = append(kinds, "dup-name")
+		}
+	}
 	for _, e := range order {
 		before.Files = append(before.Files, xt.File{Name: e.arname, Data: []byte(e.data)})
 	}
 	g.text = string(xt.Format(before))
 	if len(final) > 0 && !g.wantFail {
 		exp := &xt.Archive{Comment: []byte(comment)}
-		for _, e := range order {
+		for i, e := range order {
 			d := e.data
-			if a, ok := final[e.name]; ok {
+			if a, ok := final[e.name]; ok && i == shadow {
+				alt := fixNL(a)
+				if hasMarker(a) {
+					alt = quoteRef(fixNL(a))
+				}
+				g.alt = map[int]string{i: alt}
+			} else if ok {
 				d = fixNL(a)
 				if hasMarker(a) {
 					d = quoteRef(fixNL(a))
@@ -319,7 +341,7 @@ func gen(r *rand.Rand, idx int) *gscript {
 	return g
 }
 
-func eqArchive(a, b *xt.Archive) string {
+func eqArchive(a, b *xt.Archive, alt ...map[int]string) string {
 	if !bytes.Equal(a.Comment, b.Comment) {
 		return fmt.Sprintf("the script text changed: %q vs %q", a.Comment, b.Comment)
 	}
@@ -329,6 +351,11 @@ func eqArchive(a, b *xt.Archive) string {
 	for i := range a.Files {
 		if a.Files[i].Name != b.Files[i].Name {
 			return fmt.Sprintf("entry %d is named %q, expected %q", i, a.Files[i].Name, b.Files[i].Name)
+		}
+		if len(alt) > 0 && alt[0] != nil {
+			if d, ok := alt[0][i]; ok && string(a.Files[i].Data) == d {
+				continue
+			}
 		}
 		if !bytes.Equal(a.Files[i].Data, b.Files[i].Data) {
 			return fmt.Sprintf("entry %q holds %q, expected %q", a.Files[i].Name, a.Files[i].Data, b.Files[i].Data)
@@ -363,7 +390,7 @@ func runOne(file string, update bool, style tsh.Style, setupCd, uniqueNames bool
 func main() {
 	tsh.Main("C16", "exploration", 10*time.Minute, func(r *vlib.Run) {
 		run = r
-		r.Rule("scripts with 2-6 golden entries (some nested names) plus a data entry; actual contents come from stdout, stderr or a file and are drawn from empty / newline-terminated / CRLF / invalid UTF-8 / '>'-prefixed / no-final-newline / marker-line contents; goldens match or not, some are compared twice (last actual wins), interleaved with '! cmp', matching 'cmpenv' and comparisons against files created at run time; a third of the runs set Params.RequireUniqueNames; a quarter of the scripts start in $WORK/startdir because Params.Setup moved Env.Cd there (archive entries are then spelled ../name or $WORK/name); a quarter of the entries are named `$WORK/name` in the archive itself (expanded when unpacked; the name in the file must stay as written); 10% dedicated scenarios in which the only mismatch must not be repaired (cmpenv, file outside the archive, '! cmp' of equal files), 10% with content that cannot be quoted. Non-trivial = distinct sequence of (update content / match / other) kinds with at least one update or a dedicated scenario.")
+		r.Rule("scripts with 2-6 golden entries (some nested names) plus a data entry; actual contents come from stdout, stderr or a file and are drawn from empty / newline-terminated / CRLF / invalid UTF-8 / '>'-prefixed / no-final-newline / marker-line contents; goldens match or not, some are compared twice (last actual wins), interleaved with '! cmp', matching 'cmpenv' and comparisons against files created at run time; a third of the runs set Params.RequireUniqueNames; a quarter of the scripts start in $WORK/startdir because Params.Setup moved Env.Cd there (archive entries are then spelled ../name or $WORK/name); a quarter of the entries are named `$WORK/name` in the archive itself (expanded when unpacked; the name in the file must stay as written); a ninth of the scripts name one golden twice (the later entry is the effective one and must be updated); 10% dedicated scenarios in which the only mismatch must not be repaired (cmpenv, file outside the archive, '! cmp' of equal files), 10% with content that cannot be quoted. Non-trivial = distinct sequence of (update content / match / other) kinds with at least one update or a dedicated scenario.")
 		r.Assume("content that has marker lines and no final newline (or invalid UTF-8 with marker lines) cannot be represented by any implementation: for it only 'the script file is not corrupted' is asserted")
 		base := vlib.Scratch()
 		rng := r.Rand("scripts")
@@ -436,7 +463,7 @@ func main() {
 					if !bytes.Equal(afterB, []byte(g.text)) {
 						fail("script-modified-without-mismatch", "the script file changed although no golden mismatched")
 					}
-				} else if d := eqArchive(after, g.expect); d != "" {
+				} else if d := eqArchive(after, g.expect, g.alt); d != "" {
 					fail("updates-lost-when-the-run-ends-badly", fmt.Sprintf("goldens mismatched (and were accepted) before the run ended as %s, but the script file does not hold the actual contents: %s", g.endVerdict, d))
 				}
 			case g.expect == nil:
@@ -452,11 +479,21 @@ func main() {
 					fail("update-run-did-not-pass", "with UpdateScripts a mismatching in-archive cmp must not fail the run; reported "+v)
 					break
 				}
-				if d := eqArchive(after, g.expect); d != "" {
+				if d := eqArchive(after, g.expect, g.alt); d != "" {
 					fail("wrong-update", d)
 					break
 				}
-				if !bytes.Equal(afterB, xt.Format(g.expect)) {
+				canon := g.expect
+				for i, d := range g.alt {
+					// the shadowed duplicate may have followed the update: canonical form with what it holds
+					if i < len(after.Files) && string(after.Files[i].Data) == d {
+						cp := *g.expect
+						cp.Files = append([]xt.File{}, g.expect.Files...)
+						cp.Files[i].Data = []byte(d)
+						canon = &cp
+					}
+				}
+				if !bytes.Equal(afterB, xt.Format(canon)) {
 					fail("script-bytes-differ", "the rewritten file parses as expected but is not byte-identical to the canonical form of the expected archive")
 				}
 				if g.rerunPasses {
